@@ -181,11 +181,30 @@ let do_recomp (op : string) (a : string list) : string =
 (* ---------- C05 / C07 http ---------- *)
 let codes (s : string) : n list = List.init (String.length s) (fun i -> n_of_int (Char.code s.[i]))
 let string_of_codes (l : n list) : string = String.concat "" (List.map (fun c -> String.make 1 (Char.chr (int_of_n c))) l)
+let utf8_scalars (s : string) : int list option =
+  let n = String.length s in
+  let b i = Char.code s.[i] in
+  let rec go i acc =
+    if i >= n then Some (List.rev acc) else
+    let c = b i in
+    if c < 0x80 then go (i + 1) (c :: acc)
+    else if c land 0xE0 = 0xC0 && i + 1 < n then go (i + 2) ((((c land 0x1F) lsl 6) lor (b (i+1) land 0x3F)) :: acc)
+    else if c land 0xF0 = 0xE0 && i + 2 < n then go (i + 3) ((((c land 0x0F) lsl 12) lor ((b (i+1) land 0x3F) lsl 6) lor (b (i+2) land 0x3F)) :: acc)
+    else if c land 0xF8 = 0xF0 && i + 3 < n then go (i + 4) ((((c land 0x07) lsl 18) lor ((b (i+1) land 0x3F) lsl 12) lor ((b (i+2) land 0x3F) lsl 6) lor (b (i+3) land 0x3F)) :: acc)
+    else None in
+  go 0 []
 let do_http (op : string) (a : string list) : string =
   match op, a with
-  | "tilepath", [path] ->
-      (match status tile_path_variant (fun _ _ _ -> true) (codes path) with
-       | None -> "dropped" | Some st -> string_of_n st)
+  | "tilepath", (path :: rest) ->
+      (* the path is UTF-8; the optional second argument lists the non-ASCII scalar values of the
+         path for which Rust's char::is_numeric holds (computed by the harness with std) *)
+      let nums = match rest with [] | ["-"] -> [] | l :: _ -> List.map int_of_string (String.split_on_char ',' l) in
+      let numeric c = let c = int_of_n c in if c < 128 then c >= 48 && c <= 57 else List.mem c nums in
+      (match utf8_scalars path with
+       | None -> "?not-utf8"
+       | Some cps ->
+         (match status tile_path_variant numeric (fun _ _ _ -> true) (List.map n_of_int cps) with
+          | None -> "dropped" | Some st -> string_of_n st))
   | "static", [root; target] ->
       (* known tree below root: index.html file.txt sub/index.html sub/inner.txt ; outside: ../secret.txt ../www-private/secret.txt *)
       let rootc = components (codes root) in
